@@ -510,6 +510,119 @@ pub fn op_acc_drop(ctx: Ctx, a: u8) {
     }
 }
 
+// ---------------------------------------------------------------------------------------------
+// Real std::sync::Arc: the Arc-only parts of the API
+// ---------------------------------------------------------------------------------------------
+
+/// Payload for the std-Arc exercise: counts its destructions.
+struct StdPayload(u64, Rc<std::cell::Cell<u32>>);
+impl Drop for StdPayload {
+    fn drop(&mut self) {
+        self.1.set(self.1.get() + 1);
+    }
+}
+impl std::fmt::Debug for StdPayload {
+    fn fmt(&self, f: &mut std::fmt::Formatter) -> std::fmt::Result {
+        write!(f, "P{}", self.0)
+    }
+}
+impl std::fmt::Display for StdPayload {
+    fn fmt(&self, f: &mut std::fmt::Formatter) -> std::fmt::Result {
+        write!(f, "p{}", self.0)
+    }
+}
+
+pub fn op_std_arc(_ctx: Ctx, variant: u8) {
+    use arc_swap::{ArcSwap, ArcSwapOption};
+    use std::sync::Arc;
+    rt::op_begin(OP_HANDLE);
+    let out = guarded("std-Arc API exercise", || -> Result<(), String> {
+        let drops = Rc::new(std::cell::Cell::new(0u32));
+        let a: ArcSwap<StdPayload> = ArcSwap::from_pointee(StdPayload(7, drops.clone()));
+        let v0 = a.load_full();
+        let cnt = |what: &str, want: usize| -> Result<(), String> {
+            let got = Arc::strong_count(&v0);
+            if got != want {
+                return Err(format!("{}: strong count of the value is {} but {} owners exist", what, got, want));
+            }
+            Ok(())
+        };
+        cnt("after from_pointee + load_full", 2)?;
+        let s = format!("{:?}|{}", a, a);
+        if !s.contains("P7") || !s.contains("p7") {
+            return Err(format!("Debug/Display of the container print {:?}", s));
+        }
+        cnt("after formatting the container", 2)?;
+        {
+            let g = a.load();
+            let s = format!("{:?}|{}", g, g);
+            if !s.contains("P7") || !s.contains("p7") {
+                return Err(format!("Debug/Display of a guard print {:?}", s));
+            }
+        }
+        cnt("after formatting a guard", 2)?;
+        let o: ArcSwapOption<StdPayload> = if variant % 2 == 0 { ArcSwapOption::empty() } else { Default::default() };
+        if o.load().is_some() {
+            return Err("an empty ArcSwapOption loads Some".into());
+        }
+        let so = format!("{:?}", o);
+        if !so.contains("None") {
+            return Err(format!("Debug of an empty ArcSwapOption prints {:?}", so));
+        }
+        o.store(Some(v0.clone()));
+        cnt("after storing a clone into an ArcSwapOption", 3)?;
+        {
+            let m = a.map(|p: &StdPayload| &p.0);
+            let g = Access::load(&m);
+            if *g != 7 {
+                return Err(format!("ArcSwapAny::map projects {}", *g));
+            }
+            if variant % 3 == 0 {
+                a.store(Arc::new(StdPayload(8, drops.clone())));
+                if *g != 7 {
+                    return Err(format!("a projection guard changed to {} after a store", *g));
+                }
+                cnt("projection guard alive, value replaced in one container", 3)?;
+            }
+        }
+        let in_a = if variant % 3 == 0 { 0 } else { 1 };
+        cnt("after the projection guard is gone", 2 + in_a)?;
+        {
+            let mut c = Cache::from(&a);
+            let _ = c.arc_swap();
+            let l = c.load();
+            let want = if variant % 3 == 0 { 8 } else { 7 };
+            if l.0 != want {
+                return Err(format!("Cache::from(..).load() gives {} instead of {}", l.0, want));
+            }
+            cnt("while a cache holds the current value", 2 + 2 * in_a)?;
+        }
+        cnt("after the cache is gone", 2 + in_a)?;
+        let f: ArcSwap<StdPayload> = ArcSwap::from(v0.clone());
+        cnt("after From<Arc>", 3 + in_a)?;
+        let back = f.into_inner();
+        if !Arc::ptr_eq(&back, &v0) {
+            return Err("into_inner returns another value than the one the container was built from".into());
+        }
+        drop(back);
+        drop(o);
+        drop(a);
+        cnt("after every container is gone", 1)?;
+        let d0 = drops.get();
+        drop(v0);
+        if drops.get() != d0 + 1 {
+            return Err("the value was not destroyed when its last owner went".into());
+        }
+        Ok(())
+    });
+    rt::op_end();
+    if let Some(Err(msg)) = out {
+        if !rt::is_aborting() {
+            rt::fail("std-arc", msg);
+        }
+    }
+}
+
 /// Final phase (single-threaded): drop caches and projection guards, and compare static with
 /// dynamic dispatch and check `Constant`.
 pub fn final_drop_extras(ctx: Ctx) {
@@ -698,7 +811,7 @@ pub fn gen_c16(rng: &mut Rng, mut cfg: RunCfg, thorough: bool) -> Case {
         prog: Program {
             conts,
             threads,
-            final_order: rng.below(4) as u8,
+            final_order: rng.below(16) as u8,
         },
     }
 }
@@ -752,7 +865,7 @@ pub fn gen_c17(rng: &mut Rng, cfg: RunCfg, thorough: bool) -> Case {
         prog: Program {
             conts,
             threads,
-            final_order: rng.below(4) as u8,
+            final_order: rng.below(16) as u8,
         },
     }
 }
